@@ -773,7 +773,17 @@ class Diagonalize(Unit):
             yield "saved-matrix=M^-1/2.d2U.M^-1/2", True
         _, arg, evals, evecs, w, V, _ = eg[0]
         yield "eigh-is-applied-to-the-saved-matrix", is_spec(arg)
-        yield from self._structure(ctx, S, d, hs[0][2] if hs else arg)
+        # symmetry / zero modes: consequences of the entry-wise form only.  The four returning paths (savehessian x saveevecs) hand the
+        # same matrix term to np.save / eigh: the clauses are generated on the first path, the other paths check that their matrix is
+        # literally the same term (the path-specific decisions share no symbol with these goals)
+        Mx = hs[0][2] if hs else arg
+        sig = [sv.znum(Mx.get((a, b)))]
+        first = inp.setdefault("_structure_sig", sig)
+        if first is sig or not all(x.eq(y) for x, y in zip(first, sig)):
+            yield from self._structure(ctx, S, d, Mx)
+        else:
+            for nm in self.STRUCTURE:
+                yield nm, True
         if es:
             E = es[0][2]
             ok = isinstance(E, A.Arr) and E.ndim == 2 and A.dim_eq_syntactic(E.shape[0], n) and A.dim_eq_syntactic(E.shape[1], n)
@@ -795,7 +805,13 @@ class Diagonalize(Unit):
         yield "omega=sqrt(eigenvalue)-if-positive", sv.implies(kin, sv.cmp("==", snap["omega"].get((k,)), sv.ite(sv.cmp(">", lam, 0), lambda: sv.sqrt(lam), lam)))
         vec = lambda idx: evecs.get((sv.add(sv.mul(idx[0], d), idx[1]), k))
         yield "PR=participation-ratio-of-eigenvector-as-(N,d)-field", sv.implies(kin, sv.cmp("==", snap["PR"].get((k,)), pr_spec(vec, S.N, d)))
-        yield from self._pr_range(ctx, S, d, n, k, kin, evecs, vec, snap["PR"].get((k,)))
+        sig = [sv.znum(snap["PR"].get((k,))), sv.znum(evecs.get((a, k)))]          # as above: once for the paths that write the same column
+        first = inp.setdefault("_pr_sig", sig)
+        if first is sig or not all(x.eq(y) for x, y in zip(first, sig)):
+            yield from self._pr_range(ctx, S, d, n, k, kin, evecs, vec, snap["PR"].get((k,)))
+        else:
+            for nm in self.PR_RANGE:
+                yield nm, True
 
     PR_RANGE = ["PR-range:regrouping:induction-base(n=0)", "PR-range:regrouping:induction-step(n->n+1)",
                 "PR-range:eigenvector-is-a-non-zero-field:sum_n|e_n|^2=1", "PR-range:induction:Q(0,c)", "PR-range:induction:Q(n,c)=>Q(n+1,c)",
@@ -890,12 +906,12 @@ class Diagonalize(Unit):
         SYM = Z(S.symmetric_params())
         # ---------------------------------------------------------------- (a) symmetry
         Dij, Dji = S.Dvec(i, j), S.Dvec(j, i)
+        nDij = [sv.neg(x) for x in Dij]
         mij = S.frac(i, j)
         rw = [(sv.rint(sv.neg(mij[k])), sv.neg(sv.rint(mij[k]))) for k in range(d)]      # instances of lemma:rint(-a)=-rint(a)
-        odd = conj([sv.cmp("==", Dji[c], sv.neg(Dij[c])) for c in range(d)])
+        odd = conj([sv.znum(Dji[c]) == sv.znum(nDij[c]) for c in range(d)])
         yield "symmetric:minimum-image-odd:D(j,i)=-D(i,j)", odd, {"ring_only": True, "rewrites": rw}
-        big = list(Dij) + list(Dji)
-        same_r = Z(sv.cmp("==", S.dist(j, i), S.dist(i, j)))
+        same_r = sv.znum(S.dist(j, i)) == sv.znum(S.dist(i, j))
         yield "symmetric:distance:|D(j,i)|=|D(i,j)|", same_r, {"ring_only": True, "rewrites": rw}
         w_sym = z3.Implies(SYM, S.F_WITHIN(i.t, j.t) == S.F_WITHIN(j.t, i.t))
         yield ("symmetric:neighbour-relation:within(i,j)=within(j,i)",
@@ -905,28 +921,37 @@ class Diagonalize(Unit):
         pairs = [(a_, b_) for a_, b_ in pairs if not a_.eq(b_)]
         par_sym = z3.Implies(SYM, conj([a_ == b_ for a_, b_ in pairs] or [True]))
         yield "symmetric:pair-parameters-and-weight:(t_j,t_i)=(t_i,t_j)", par_sym
-        # the (j,i) pair block with the parameters of the type pair (t_i,t_j) (previous clause) is the transpose of the (i,j) block
+        # the definiens of Boff(j,i,q,p), with the parameters of the type pair (t_i,t_j) (previous clause) and D(j,i) replaced by -D(i,j)
+        # (first clause), equals the definiens of Boff(i,j,p,q): B(-x)^T = B(x), as a ring identity for an arbitrary vector x in place of D(i,j)
         e_ij = {c: S.bo_def(i, j, c[0], c[1]) for c in comps}
         e_ji = {c: S.bo_def(j, i, c[1], c[0]) for c in comps}
-        e_ji_s = {c: (sv.SV(z3.substitute(sv.znum(e_ji[c]), *pairs)) if pairs else e_ji[c]) for c in comps}
-        blk_sym = conj([sv.cmp("==", e_ji_s[c], e_ij[c]) for c in comps])
-        yield "symmetric:pair-block:B(D(j,i))^T/sqrt(m_j.m_i)=B(D(i,j))/sqrt(m_i.m_j)", blk_sym, {"ring_only": True, "rewrites": rw}
+        to_neg = [(sv.znum(Dji[k]), sv.znum(nDij[k])) for k in range(d)]
+        r_ij, r_ji = S.dist(i, j), S.dist(j, i)
+        to_r = [(sv.znum(r_ji), sv.znum(r_ij))]                  # |D(j,i)| = |D(i,j)| (second clause)
+        e_ji_n = {c: sv.SV(z3.substitute(sv.znum(e_ji[c]), *(pairs + to_r + to_neg))) for c in comps}
+        blk_sym = conj([sv.cmp("==", e_ji_n[c], e_ij[c]) for c in comps])
+        yield "symmetric:pair-block:B(D(j,i))^T/sqrt(m_j.m_i)=B(D(i,j))/sqrt(m_i.m_j)", sv.generalize(blk_sym, [r_ij] + list(Dij))[0], {"ring_only": True}
         bo_sym = z3.Implies(SYM, conj([sv.cmp("==", S.BO(j, i, c[1], c[0]), S.BO(i, j, c[0], c[1])) for c in comps]))
-        for c in comps:      # Boff(j,i,q,p) = its definiens = the same with the parameters of (t_i,t_j) = definiens of Boff(i,j,p,q) = Boff(i,j,p,q)
+        # Boff(j,i,q,p) = its definiens = (substitution of equals: parameters, D(j,i) = -D(i,j)) = definiens of Boff(i,j,p,q) = Boff(i,j,p,q);
+        # every substituted term is generalised to a constant, so that the query is congruence only
+        opaque = [sv.SV(x) for pr in pairs for x in pr] + [r_ji, r_ij] + list(Dji) + nDij + list(Dij)
+        for c in comps:
             lhs, rhs = S.BO(j, i, c[1], c[0]), S.BO(i, j, c[0], c[1])
-            hyp = conj([sv.cmp("==", rhs, e_ij[c]), sv.cmp("==", lhs, e_ji[c]), par_sym, sv.cmp("==", e_ji_s[c], e_ij[c])])
+            hyp = conj([sv.cmp("==", rhs, e_ij[c]), sv.cmp("==", lhs, e_ji[c]), par_sym, odd, same_r, sv.cmp("==", e_ji_n[c], e_ij[c])])
             yield ("symmetric:off-diagonal-entry:Boff(j,i,q,p)=Boff(i,j,p,q)",
-                   sv.generalize(z3.Implies(hyp, z3.Implies(SYM, Z(sv.cmp("==", lhs, rhs)))), big + [sv.SV(x) for pr in pairs for x in pr])[0], {"solver_opts": {"uf_abstraction": True}})
+                   sv.generalize(z3.Implies(hyp, z3.Implies(SYM, Z(sv.cmp("==", lhs, rhs)))), opaque)[0], {"solver_opts": {"uf_abstraction": True}})
         up = [c for c in comps if c[0] < c[1]]
+        Din = list(S.Dvec(i, n))
         dd = {c: S.bd_def(i, n, c[0], c[1]) for c in comps}
         dd_sym = conj([sv.cmp("==", dd[c], dd[(c[1], c[0])]) for c in up])
-        yield "symmetric:diagonal-summand:B(D(i,t))[p][q]=B(D(i,t))[q][p]", dd_sym, {"ring_only": True}
+        # mixed partial derivatives commute (ring identity for an arbitrary vector in place of D(i,t))
+        yield "symmetric:diagonal-summand:B(D(i,t))[p][q]=B(D(i,t))[q][p]", sv.generalize(dd_sym, Din)[0], {"ring_only": True}
 
         def bd_sym_at(t):
             return conj([sv.cmp("==", S.BD(i, t, c[0], c[1]), S.BD(i, t, c[1], c[0])) for c in up])
         defs_bd = conj([sv.cmp("==", S.BD(i, n, c[0], c[1]), dd[c]) for c in comps])
         yield ("symmetric:diagonal-summand:Bdiag(i,t,p,q)=Bdiag(i,t,q,p)",
-               sv.generalize(z3.Implies(z3.And(defs_bd, dd_sym), bd_sym_at(n)), list(S.Dvec(i, n)))[0])
+               sv.generalize(z3.Implies(z3.And(defs_bd, dd_sym), bd_sym_at(n)), Din)[0])
         inr = conj([rng(i, N), rng(j, N), rng(p, d), rng(q, d)])
         # the three facts are used at the pair (i, j) they were proved at, and (third) at the Skolem index of Sigma-extensionality
         yield ("symmetric:H[i.d+p,j.d+q]=H[j.d+q,i.d+p]", z3.Implies(z3.And(inr, SYM), Z(sv.cmp("==", blk(i, p, j, q), blk(j, q, i, p)))),
@@ -935,7 +960,7 @@ class Diagonalize(Unit):
         s_i, s_n = S.sqrt_mass(i), S.sqrt_mass(n)
         Bii, Bij = S.block(i, n, "ii"), S.block(i, n, "ij")
         cross = conj([sv.cmp("==", Bij[a][b], sv.neg(Bii[a][b])) for a, b in comps])
-        yield "translations:cross-derivative:d2u/da.db=-d2u/da.da-at-D(i,n)", cross, {"ring_only": True}
+        yield "translations:cross-derivative:d2u/da.db=-d2u/da.da-at-D(i,n)", sv.generalize(cross, Din)[0], {"ring_only": True}
         # mass weights: instances (g, h) = (B, -B)[p][q], (m_i, m_j) = the masses of every type pair, of the lemma
         #   m_i, m_j > 0, X = g (1/m_i), Y = h (1/sqrt(m_i m_j)), h = -g  =>  X sqrt(m_i) + Y sqrt(m_j) = 0     (C11:lemma:translation-summand:product-form)
         def lemma_inst(X, Y, g, h):
@@ -951,7 +976,7 @@ class Diagonalize(Unit):
             goals.append(sv.generalize(z3.Implies(conj(hyp), Z(summand_zero(n, c))), [g, h])[0])
         yield "translations:summand:(B/m_i).sqrt(m_i)-(B/sqrt(m_i.m_n)).sqrt(m_n)=0", conj(goals), {"assume": [cross]}
         no_self = z3.Implies(S.F_WITHIN(i.t, n.t), Z(sv.cmp("!=", n, i)))
-        yield "translations:no-self-term:within(i,n)=>n!=i", sv.generalize(z3.Implies(S.def_within(i, n), no_self), list(S.Dvec(i, n)))[0]
+        yield "translations:no-self-term:within(i,n)=>n!=i", sv.generalize(z3.Implies(S.def_within(i, n), no_self), Din)[0]
         # row sum up to n:  R(n):  sum_{t<n} Mx[i d+p, t d+q] sqrt(m_t) = [i<n] DS sqrt(m_i) - sum_{t<n} [within(i,t)] Bdiag(i,t,p,q) sqrt(m_i)
         #   with DS = sum_{t<N} [within(i,t)] Bdiag(i,t,p,q) the diagonal entry; then  L(n): (sum_{t<n} [..] Bdiag) sqrt(m_i) = sum_{t<n} [..] Bdiag sqrt(m_i)
         DS = S.diag_sum(i, p, q)
